@@ -624,6 +624,11 @@ def run_check(pid: str, tier: str, master: int) -> int:
         reported.append({"key": key, "message": msg[:300], "replay": path, "known": bool(kf)})
     if len(by_key) > 12:
         print("  (%d further violation keys not minimised)" % (len(by_key) - 12))
+    # ---- a run that judged nothing has decided nothing (e.g. the code under test bypasses every seam the oracles read)
+    judged_total = sum(n for k, n in agg["counters"].items() if k.startswith("judged"))
+    if agg["runs"] >= 200 and judged_total == 0 and not stopped_early:
+        harness_error = True
+        print("HARNESS-ERROR: %d runs but not one judged observation: the check cannot see what this code does" % agg["runs"])
     # ---- probes
     missing = [p for p in prop.required_probes if not any(k == p or k.startswith(p) for k in agg["counters"])]
     if tier == "thorough" and missing and not stopped_early:
